@@ -105,6 +105,7 @@ pub fn c15(h: &mut H) {
                 r.push(Integer::from(7));
                 reject(h, "n_plus_1", &pk.pok, &ck, &k.pk, &k.bases[..n + 1].to_vec(), &r, &hidden, n + 1);
             }
+            reject(h, "n_zero", &pk.pok, &ck, &k.pk, &bases, &[], &[], 0);
             if n > 1 && !pk.revealed.is_empty() && !hidden.contains(&(n - 1)) && pk.revealed[pk.revealed.len() - 1] != 0 {
                 reject(h, "n_minus_1", &pk.pok, &ck, &k.pk, &bases, &pk.revealed[..pk.revealed.len() - 1].to_vec(), &hidden, n - 1);
             }
